@@ -1,6 +1,7 @@
 package hcopy
 
 import (
+	"encoding/json"
 	"errors"
 	"fmt"
 	"io"
@@ -12,6 +13,7 @@ import (
 	"github.com/regclient/regclient/internal/verif/audit"
 	"github.com/regclient/regclient/internal/verif/ev"
 	"github.com/regclient/regclient/internal/verif/explore"
+	"github.com/regclient/regclient/internal/verif/graphs"
 	"github.com/regclient/regclient/internal/verif/modelreg"
 	"github.com/regclient/regclient/internal/verif/qsched"
 )
@@ -39,11 +41,19 @@ var c04Faults = []string{"500", "503", "429", "404", "401", "reset", "trunc", "c
 func c04Decide(x *Exec, e *modelreg.Entry) *modelreg.Answer {
 	// invariant (4): evaluated on the state left by all previous requests
 	x.invariant("before request " + fmt.Sprint(e.Seq))
+	if x.TagAt == 0 {
+		var got string
+		x.Net.With(func() { got = x.tgtResolve() })
+		if got != x.PreTag && !(x.Sc.ByDigest && x.PreTgt[x.G.Top]) {
+			x.TagAt = e.Seq + 1
+		}
+	}
 	ch := x.C.Choose("env", 1+len(c04Faults), nil)
 	if ch == 0 {
 		return nil
 	}
 	f := c04Faults[ch-1]
+	x.LastFault = e.Seq + 1
 	x.Faults = append(x.Faults, fmt.Sprintf("%s@%d(%s %s)", f, e.Seq, e.Method, e.Kind))
 	switch f {
 	case "500", "503", "429", "404":
@@ -136,20 +146,98 @@ func judgeC04(x *Exec) (key, msg string) {
 			}
 		}
 		if last >= 0 {
+			own := ownClosure(x.G)
+			var first *modelreg.Entry
+			outside, inside := 0, 0
 			for _, e := range x.Net.Log[last+1:] {
 				if e.Mutating() && e.Host == tgtH && e.Status >= 200 && e.Status < 300 && !strings.HasPrefix(e.Note, "fault") {
-					return "write-after-tag", fmt.Sprintf("%s was written after the requested reference (request %d): %s", e.Kind, last, e)
+					if first == nil {
+						first = e
+					}
+					if d := writtenDigest(x.G, e); d != "" {
+						if own[d] {
+							inside++
+						} else {
+							outside++
+						}
+					}
 				}
+			}
+			if first != nil {
+				msg := fmt.Sprintf("%s was written after the requested reference (request %d): %s", first.Kind, last, first)
+				if inside == 0 && outside > 0 {
+					// everything written late lies outside the image the reference names: content that
+					// hangs off it (digest tags, referrers) whose copy was deferred
+					return "write-after-tag content-outside-the-image opt=" + x.Sc.Opt + "!", msg
+				}
+				return "write-after-tag", msg
 			}
 		}
 	}
 	// (3) failure leaves the reference where it was
 	if x.Err != nil {
 		if got := x.tgtResolve(); got != x.PreTag && !(x.Sc.ByDigest && got == x.G.Top && x.PreTgt[x.G.Top]) {
+			if x.TagAt > 0 && x.LastFault >= x.TagAt {
+				// the failure was injected after the reference had been written: the statement speaks
+				// of failures "at any point before that final write"; what follows the reference is
+				// judged by clause (2)
+				return "", ""
+			}
 			return "failed-copy-moved-tag", fmt.Sprintf("copy returned %q but the target reference now resolves to %q (before: %q); faults %v", x.Err, short(got), short(x.PreTag), x.Faults)
 		}
 	}
 	return "", ""
+}
+
+// ownClosure returns the digests of the image the requested reference names: everything reachable
+// from the top manifest through config, layers, manifests and blobs (not through subject).
+func ownClosure(g *graphs.Graph) map[string]bool {
+	own := map[string]bool{}
+	var walk func(d string)
+	walk = func(d string) {
+		if own[d] {
+			return
+		}
+		own[d] = true
+		m, ok := g.Manifests[d]
+		if !ok {
+			return
+		}
+		var doc struct {
+			Config    *modelreg.Desc  `json:"config"`
+			Layers    []modelreg.Desc `json:"layers"`
+			Manifests []modelreg.Desc `json:"manifests"`
+			Blobs     []modelreg.Desc `json:"blobs"`
+		}
+		if json.Unmarshal(m.Body, &doc) != nil {
+			return
+		}
+		if doc.Config != nil {
+			walk(doc.Config.Digest)
+		}
+		for _, l := range [][]modelreg.Desc{doc.Layers, doc.Manifests, doc.Blobs} {
+			for _, e := range l {
+				walk(e.Digest)
+			}
+		}
+	}
+	walk(g.Top)
+	return own
+}
+
+// writtenDigest names the content a successful mutating request stored ("" when the request does
+// not say: upload start without mount, chunk).
+func writtenDigest(g *graphs.Graph, e *modelreg.Entry) string {
+	if e.Kind == "manifest-put" {
+		if strings.Contains(e.Ref, ":") {
+			return e.Ref
+		}
+		return modelreg.Digest(g.Algo, e.Body)
+	}
+	if d := e.Query.Get("mount"); d != "" {
+		return d
+	}
+	return e.Query.Get("digest")
 }
 
 func c04Scenarios(thorough bool) []schedItem {
@@ -228,7 +316,11 @@ func c04Explore(t *testing.T, rec *ev.Rec, it schedItem) {
 					return
 				}
 			}
-			rec.Violation(r.VKey+" "+sc.String(), r.Violation+"\nchoices: "+c.Describe(), copyReplay{Check: "C04", Scen: sc, Bound: it.Bound, All: it.BranchAll, Choices: explore.Trim(c.Choices())})
+			key := r.VKey + " " + sc.String()
+			if strings.HasSuffix(r.VKey, "!") {
+				key = strings.TrimSuffix(r.VKey, "!") // a class of failing inputs, not one scenario
+			}
+			rec.Violation(key, r.Violation+"\nscenario: "+sc.String()+"\nchoices: "+c.Describe(), copyReplay{Check: "C04", Scen: sc, Bound: it.Bound, All: it.BranchAll, Choices: explore.Trim(c.Choices())})
 		}
 		if c.Cost > 0 {
 			rec.Distinct(sc.String() + "#" + r.Outcome)
